@@ -134,10 +134,10 @@ UNITS = {
     },
     'K8t': {
         'engine': 'kani', 'crate': 'toml_edit',
-        'harnesses': ['k8_post_n4', 'k8_nopanic_n3'],
-        'complete': False, 'bound': 'every valid UTF-8 input of 4 bytes x every index; every 3-byte input (any bytes) for panic freedom',
+        'harnesses': ['k8_post_n4'],
+        'complete': False, 'bound': 'every valid UTF-8 input of 4 bytes x every index',
         'timeout': 3000,
-        'title': 'translate_position contract on 4-byte inputs; panic freedom on arbitrary 3-byte inputs (bounded)',
+        'title': 'translate_position contract on 4-byte inputs (bounded)',
         'witness': ['witness-k8'], 'replay': 'replay-k8',
     },
 }
